@@ -53,6 +53,7 @@ DSPEC = "path/DStarLite.tla"
 DCFG = "path/DStarLite.cfg"
 
 IDS = "[[1,2,3,4,5,6],[-7,1000000007,0,42,3,9223372036854775807]]"
+IDS10 = "[[1,2,3,4,5,6,7,8,9,10],[-7,1000000007,0,42,3,9223372036854775807,5,-1,77,12]]"
 
 # D* Lite on worlds with zero-weight edges between nodes other than the goal (every zero-weight cycle
 # still passes through the goal).  dynamic.DStarLite documents only "panics on a negative weight";
@@ -131,6 +132,21 @@ def run(ctx):
         cases = ctx.gen(SPEC, CFG, subst=sb, name="R2 gen " + name)
         ctx.replay(hb, "path-small", cases, ["kinds=" + kinds, "views=" + views, "ids=" + IDS],
                    name="R2 replay " + name)
+
+    # ---- R2 tie-rich family: lists of alternatives in the all-pairs routines -----------------------
+    # layered graphs on 7..9 nodes in which a source has 2..6 equally good routes to two targets sharing a
+    # hub (ShortestPath.tla, Mode = "ties": the whole parameter space, 720 graphs); the spec prints the SET
+    # of shortest paths of every pair; dense matrices in four node orders printed by the spec and map-based
+    # graphs in two id bindings; AllBetween / AllBetweenFunc / AllTo must equal the set, every Between / To
+    # path must be a member, weights exact.  Signatures path:ties:<routine>:<what>.
+    if want("ties"):
+        cases = ctx.gen(SPEC, CFG, subst=subst(0, 0, True, "{1,2,5}", 0, mode="ties"),
+                        name="R2 gen tie-rich layered family (source -> 2..3 middles -> hub -> 2 targets, 1..2 side routes of weight "
+                             "absent / tied / heavier, tied middle->target shortcuts), 7..9 nodes, weights {1,2,5}")
+        ctx.replay(hb, "path-small", cases,
+                   ["kinds=weighted,matrix", "views=" + ("graph,traverse" if thorough else "graph"), "ids=" + IDS10, "tag=ties:",
+                    "reps=%d" % (25 if thorough else 8)],
+                   name="R2 replay tie-rich layered family (all-paths sets, 4 node orders in dense matrices, 2 id bindings in map graphs)")
 
     # ---- R3: random graphs to 60 nodes through the real routines, judged by TLC ---------------
     ngraphs = 120 if thorough else 28
